@@ -634,7 +634,7 @@ func c05RunSeq(mode string, tree []c05Ent, ops []c05Op, gen *rand.Rand, n int, l
 
 		// RemoveAll whose path runs through a symbolic link that lives inside the directory being removed
 		selfRef := false
-		if op.K == "removeall" && via {
+		if op.K == "removeall" {
 			selfRef = c05LinkInsideTarget(run.rootB, op.P)
 		}
 
@@ -739,6 +739,10 @@ func (r *c05Run) classify(op c05Op, what string, a, b c05Out, diff []string, lea
 	case what == "hang" || what == "panic":
 		return what + "/" + op.K, "client call did not return normally: " + a.Err
 
+	// inherent to a path-based RemoveAll (known finding): decided on the pre-operation tree alone, whatever differs
+	case op.K == "removeall" && selfRef:
+		return "removeall/path-through-link-inside-removed-tree", "the path given to RemoveAll runs through a symbolic link that lives inside the directory being removed: os.RemoveAll works on directory descriptors (openat/unlinkat) and finishes; Client.RemoveAll re-resolves path+\"/\"+name for every request, so once it has removed that link the remaining paths no longer resolve"
+
 	// F14: Client.RemoveAll decides with Stat (follows links)
 	case op.K == "removeall" && leafIsLink:
 		return "removeall/follows-symlink", "RemoveAll of a symbolic link: os.RemoveAll unlinks the link; Client.RemoveAll Stats through it (deletes the target directory's contents / fails on a dangling or looping link)"
@@ -774,8 +778,6 @@ func (r *c05Run) classify(op c05Op, what string, a, b c05Out, diff []string, lea
 		return "workdir/path-cleaned-lexically", "with a server working directory a relative path is path.Join'ed (cleaned: trailing slash, \".\", \"x/..\" removed) before the kernel sees it; package os hands the path to the kernel as written"
 	}
 	switch {
-	case op.K == "removeall" && selfRef:
-		return "removeall/path-through-link-inside-removed-tree", "the path given to RemoveAll runs through a symbolic link that lives inside the directory being removed: os.RemoveAll works on directory descriptors (openat/unlinkat) and finishes; Client.RemoveAll re-resolves path+\"/\"+name for every request, so once it has removed that link the remaining paths no longer resolve"
 	case op.K == "removeall" && nonCanonical(op.P):
 		return "removeall/non-canonical-path", "os.RemoveAll normalises its argument before touching the tree (strips trailing slashes, refuses a final \".\" with EINVAL); Client.RemoveAll hands the text to STAT/READDIR/REMOVE as written"
 	case op.K == "remove" && what == "category" && a.Cat == "not-exist" && b.Cat != "not-exist":
@@ -796,26 +798,90 @@ func (r *c05Run) classify(op c05Op, what string, a, b c05Out, diff []string, lea
 	return op.K + "/tree", "the served tree differs from the os tree after the step"
 }
 
-// c05LinkInsideTarget reports whether a symbolic link met on the way to rel is itself located inside the
-// directory rel resolves to.
+// c05LinkInsideTarget decides the class "the path given to RemoveAll runs through a symbolic link that lives inside
+// the directory being removed". It resolves rel (relative to root) on the tree as it is NOW (call it before the
+// operation) component by component with Lstat/Readlink the way the kernel does: a symbolic link in a non-final
+// position is followed (its text is spliced in front of the remaining components; an absolute text restarts at
+// "/"; ".." is the parent of the directory reached; at most 40 links), and the physical location (real directory +
+// name) of every link followed is recorded — links met while following another link's text included. The final
+// component is not followed (RemoveAll Lstats it). The result is true iff the final component is a real directory
+// with real path T and at least one recorded location lies strictly inside T.
 func c05LinkInsideTarget(root, rel string) bool {
-	target, err := filepath.EvalSymlinks(c05Join(root, rel))
-	if err != nil {
+	type comp struct {
+		name  string
+		final bool
+	}
+	split := func(s string, final bool) []comp {
+		var out []comp
+		for _, n := range strings.Split(s, "/") {
+			if n != "" {
+				out = append(out, comp{n, false})
+			}
+		}
+		if final && len(out) > 0 {
+			out[len(out)-1].final = true
+		}
+		return out
+	}
+	// the root itself is resolved the same way (it is real in practice: the scratch base is EvalSymlinks'ed)
+	pending := append(split(root, false), split(rel, true)...)
+	if len(pending) == 0 || !pending[len(pending)-1].final {
 		return false
 	}
-	comps := strings.Split(path.Clean(rel), "/")
-	for i := 0; i < len(comps)-1; i++ {
-		link := c05Join(root, strings.Join(comps[:i+1], "/"))
-		fi, err := os.Lstat(link)
-		if err != nil || fi.Mode()&os.ModeSymlink == 0 {
+	cur := "" // real path of the directory reached ("" = "/")
+	var links []string
+	for hops := 0; len(pending) > 0; {
+		c := pending[0]
+		pending = pending[1:]
+		switch c.name {
+		case ".":
+			if c.final {
+				return false // os.RemoveAll refuses a final "."; not this class
+			}
+			continue
+		case "..":
+			if c.final {
+				return false
+			}
+			if i := strings.LastIndexByte(cur, '/'); i >= 0 {
+				cur = cur[:i]
+			}
 			continue
 		}
-		dir, err := filepath.EvalSymlinks(filepath.Dir(link))
+		loc := cur + "/" + c.name
+		fi, err := os.Lstat(loc)
 		if err != nil {
-			continue
+			return false // missing: nothing is removed through a link
 		}
-		if loc := dir + "/" + filepath.Base(link); strings.HasPrefix(loc, target+"/") {
-			return true
+		switch {
+		case fi.Mode()&os.ModeSymlink != 0:
+			if c.final {
+				return false // the link itself is removed, not a directory
+			}
+			if hops++; hops > 40 {
+				return false // ELOOP
+			}
+			text, err := os.Readlink(loc)
+			if err != nil || text == "" {
+				return false
+			}
+			links = append(links, loc)
+			if text[0] == '/' {
+				cur = ""
+			}
+			pending = append(split(text, false), pending...)
+		case fi.IsDir():
+			if c.final {
+				for _, l := range links {
+					if strings.HasPrefix(l, loc+"/") {
+						return true
+					}
+				}
+				return false
+			}
+			cur = loc
+		default:
+			return false // a non-directory: as the final component it is unlinked, elsewhere the path does not resolve
 		}
 	}
 	return false
